@@ -61,7 +61,9 @@ type family struct {
 	params []string                                              // one case per parameter
 	gen    func(c *mon.Case, param string, emit func(string, []byte)) // emits (what, input)
 	calls  []builtCall
-	kdf    bool
+	// callsFor, when set, replaces calls with a list that depends on the parameter
+	callsFor func(param string) []builtCall
+	kdf      bool
 }
 
 type builtCall struct {
@@ -86,7 +88,11 @@ func built(x *mon.Ctx) {
 			fam.gen(c, p, func(what string, b []byte) {
 				ms = append(ms, mutant{b: b, what: "built/" + fam.name + "/" + p + "/" + what})
 			})
-			for _, call := range fam.calls {
+			calls := fam.calls
+			if fam.callsFor != nil {
+				calls = fam.callsFor(p)
+			}
+			for _, call := range calls {
 				r.run(c, &entry{name: call.entry, f: call.f, kdf: fam.kdf}, ms)
 			}
 			c.Event("constructed_inputs", len(ms))
@@ -110,7 +116,7 @@ func families(w *world) []*family {
 		fam := &family{name: "sm9-authenticated-c2-size/" + enc, params: names("xor", "ecb", "cbc", "cfb", "ofb")}
 		fam.gen = func(c *mon.Case, mode string, emit func(string, []byte)) {
 			opts := sm9modes[mode]
-			for n := 0; n <= 50; n++ {
+			for n := 0; n <= 40; n++ {
 				c2 := pat(c.R, n)
 				k1 := opts.GetKeySize(c2)
 				key, err := sm9.UnwrapKey(w.encUser, w.uid, c1, k1+sm3.Size)
@@ -129,12 +135,18 @@ func families(w *world) []*family {
 			}
 		}
 		if enc == "raw" {
-			for _, mode := range fam.params {
-				opts := sm9modes[mode]
-				d, _ := sm9.NewDecrypterOptsWithUID(opts, w.uid)
-				fam.calls = append(fam.calls,
-					builtCall{"sm9.Decrypt/raw-" + mode, func(b []byte) bool { _, err := sm9.Decrypt(w.encUser, w.uid, b, opts); return err == nil }},
-					builtCall{"sm9.EncryptPrivateKey.Decrypt/DecrypterOptsWithUID-" + mode, func(b []byte) bool { _, err := w.encUser.Decrypt(nil, b, d); return err == nil }})
+			// the mode the MAC was computed for (reaches the mode's decrypter) and one other mode (MAC keys differ for
+			// xor, coincide for the block modes: a CFB/OFB payload handed to the CBC/ECB decrypter is authenticated)
+			fam.callsFor = func(mode string) []builtCall {
+				var out []builtCall
+				for _, m := range []string{mode, map[string]string{"xor": "cbc", "ecb": "cbc", "cbc": "ecb", "cfb": "cbc", "ofb": "ecb"}[mode]} {
+					m, opts := m, sm9modes[m]
+					d, _ := sm9.NewDecrypterOptsWithUID(opts, w.uid)
+					out = append(out,
+						builtCall{"sm9.Decrypt/raw-" + m, func(b []byte) bool { _, err := sm9.Decrypt(w.encUser, w.uid, b, opts); return err == nil }},
+						builtCall{"sm9.EncryptPrivateKey.Decrypt/DecrypterOptsWithUID-" + m, func(b []byte) bool { _, err := w.encUser.Decrypt(nil, b, d); return err == nil }})
+				}
+				return out
 			}
 		} else {
 			fam.calls = []builtCall{
